@@ -417,6 +417,35 @@ def rule_K3_K4(ctx):
                   'np.asarray(_v_)[1, ...]', rj),
               'complex arrays are not split/joined as (real, imag) pairs '
               'consistently', ctx.where(io, wj))
+    # the reader undoes exactly what the writer did: every re-binding of the
+    # value in the reader loop is one of the three inverse steps, under the
+    # tag that the writer set for it (anything else changes what is returned
+    # for some inputs only, e.g. by size or dtype)
+    rl = [n for n in rj.body if isinstance(n, ast.For)]
+    ctx.anchor(len(rl) == 1 and isinstance(rl[0].target, ast.Tuple),
+               'key/value loop of _dict_array_comp')
+    kname, vname = (x.id for x in rl[0].target.elts)
+    allowed = (
+        (f'{vname} = _dict_array_comp({vname})', f'isinstance({vname}, dict)'),
+        (f'{vname} = np.asarray({vname}, dtype=__, order=__)',
+         f"'__array' in {kname}"),
+        (f'{vname} = np.asarray({vname})[0, ...] + 1j * '
+         f'np.asarray({vname})[1, ...]', f"'__complex' in {kname}"),
+    )
+    for st_ in ast.walk(rl[0]):
+        if isinstance(st_, (ast.Assign, ast.AugAssign)) and any(
+                isinstance(t, ast.Name) and t.id == vname or
+                isinstance(t, ast.Subscript) and isinstance(t.value, ast.Name)
+                and t.value.id == vname
+                for t in (st_.targets if isinstance(st_, ast.Assign)
+                          else [st_.target])):
+            gs = [ast.unparse(t) for t, pol in au.guards_of(st_, rj) if pol]
+            ok = any(has(tp, st_) and gs == [g] for tp, g in allowed)
+            ctx.check('C17.K3.tags', f'JSON reader step `{au.stext(st_)[:50]}`',
+                      ok, f'under {gs}: this re-binding of the value is not '
+                      'the inverse of a writer step (recursion, array tag, '
+                      'complex tag); the loaded value differs from the saved '
+                      'one for the inputs it applies to', ctx.where(io, st_))
     # None sentinel
     ser, non = io.func('_dict_serialize'), io.func('_nonetype_to_none')
     s1 = [s for s in string_consts(ser) if 'None' in s]
